@@ -4,7 +4,7 @@ NAME="$1"; shift
 cd /repo && git diff --quiet || { echo "/repo dirty"; exit 2; }
 git -C /repo apply /verif/seeded/$NAME/patch.diff || exit 2
 for p in "$@"; do
-  out=$(cd /verif && ./check $p 2>&1 | grep -v WARNING); rc=$?
+  out=$(cd /verif && VERIF_EVIDENCE_DIR=/tmp/seed-evidence ./check $p 2>&1 | grep -v WARNING); rc=$?
   echo "== $NAME / $p : $(echo "$out" | grep -E '^(VIOLATION|OK|INCONCLUSIVE)' | head -3 | tr '\n' ' ')"
   echo "$out" | grep -E "obligation:" | head -4
 done
